@@ -53,7 +53,7 @@ TMuRel ==
   /\ Is("mu.rel")
   /\ \/ Cur.op = "auth"   /\ Cur.th \in Verifiers /\ VRel(Cur.th)
      \/ Cur.op = "apply"  /\ Cur.th = BP /\ BPApplyRel
-     \/ Cur.op = "cached" /\ Cur.th = CL /\ CLRel
+     \/ Cur.op = "cached" /\ Cur.th = CL /\ CLRel(FALSE)
   /\ Adv
 TRbSend == Is("rb.send") /\ Cur.th \in Verifiers /\ VSend(Cur.th) /\ Adv
 TBPBlock == Is("bp.block") /\ Cur.th = BP /\ BPTakeBlock /\ Adv
